@@ -154,7 +154,7 @@ def run_one(sid, tier):
         rc, o = sh("git apply --whitespace=nowarn %s" % os.path.join(d, "patch.diff"), cwd=wt)
         if rc != 0:
             return sid, {"error": "apply failed"}
-        env = dict(GOENV, VERIF_REPO=wt, VERIF_NOMIN="1")
+        env = dict(GOENV, VERIF_REPO=wt, VERIF_NOMIN="1", VERIF_EVIDENCE_DIR="/tmp/seedwt/evidence")
         if tier == "thorough":
             env["VERIF_SEED"] = "7"
             env["VERIF_BUDGET_SCALE"] = os.environ.get("SEEDED_THOROUGH_SCALE", "0.34")
